@@ -237,6 +237,49 @@ func init() {
 		msg := it.sprintfSafe(format, vals)
 		return it.makeError(msg, wrapped)
 	}
+	intercepts["fmt.Sscanf"] = func(it *Interp, fn *ssa.Function, args []Value) Value {
+		// contract stub for the single use in the repo: fmt.Sscanf(s, "%d-", &int)
+		ts := it.ts
+		str := args[0].(*StrV)
+		format := it.needConc(args[1].(*StrV), "Sscanf format")
+		targets := it.sliceVals(args[2].(*SliceV))
+		if format != "%d-" || len(targets) != 1 {
+			panic(unsupported("fmt.Sscanf with format " + format))
+		}
+		tp, ok := targets[0].(*IfaceV).v.(*Ptr)
+		if !ok {
+			panic(unsupported("fmt.Sscanf target"))
+		}
+		bs := str.bytes(ts)
+		val := ts.BV(0, 64)
+		nd := 0
+		for nd < len(bs) && nd < 6 {
+			b := bs[nd]
+			if b.op == OpNum {
+				panic(unsupported("Sscanf over numeral segment"))
+			}
+			if nd == 0 && it.branch(ts.Or(ts.Eq(b, ts.BV('+', 8)), ts.Eq(b, ts.BV('-', 8)))) {
+				panic(unsupported("Sscanf signed input"))
+			}
+			isDig := ts.And(ts.ULe(ts.BV('0', 8), b), ts.ULe(b, ts.BV('9', 8)))
+			if !it.branch(isDig) {
+				break
+			}
+			val = ts.Add(ts.Mul(val, ts.BV(10, 64)), ts.ZExt(ts.Sub(b, ts.BV('0', 8)), 64))
+			nd++
+		}
+		if nd == 0 {
+			return TupleV{ts.BV(0, 64), it.makeError(concStr("expected integer"), nil)}
+		}
+		if nd == 6 {
+			panic(unsupported("Sscanf number longer than 5 digits"))
+		}
+		it.store(tp, val)
+		if nd < len(bs) && it.branch(ts.Eq(bs[nd], ts.BV('-', 8))) {
+			return TupleV{ts.BV(1, 64), &IfaceV{}}
+		}
+		return TupleV{ts.BV(1, 64), it.makeError(concStr("input does not match format"), nil)}
+	}
 	intercepts["fmt.Println"] = noop
 	intercepts["fmt.Printf"] = noop
 	intercepts["fmt.Print"] = noop
